@@ -753,6 +753,10 @@ func checkGRPCStatus(headers http.Header, printer internal.Printer) { //nolint:g
 	default:
 		statusStr := statusVals[0]
 		code, err := strconv.Atoi(statusStr)
+		if err == nil && statusStr[0] == '+' {
+			// strconv accepts an explicit plus sign; the gRPC spec (1*DIGIT) does not.
+			err = &strconv.NumError{Func: "Atoi", Num: statusStr, Err: strconv.ErrSyntax}
+		}
 		if err != nil {
 			printer.Printf("trailers include invalid 'grpc-status' value %q: %v", statusStr, err)
 		} else {
